@@ -156,6 +156,7 @@ type entryEdge struct {
 }
 
 type LockInfo struct {
+	may     bool // may-hold (union) instead of must-hold (intersection)
 	w       *World
 	entry   map[*ssa.Function]lockset
 	hasEdge map[*ssa.Function]bool
@@ -172,13 +173,25 @@ type acqSite struct {
 	op    lockOp
 }
 
-func (w *World) lockInfo() *LockInfo {
-	if w.locks != nil {
+func (w *World) lockInfo() *LockInfo { return w.lockInfoMode(false) }
+
+// mayLockInfo: locks that MAY be held (union over callers and paths); used for lock-order and blocking-under-lock.
+func (w *World) mayLockInfo() *LockInfo { return w.lockInfoMode(true) }
+
+func (w *World) lockInfoMode(may bool) *LockInfo {
+	if !may && w.locks != nil {
 		return w.locks
 	}
-	li := &LockInfo{w: w, entry: map[*ssa.Function]lockset{}, hasEdge: map[*ssa.Function]bool{}, edges: map[*ssa.Function][]entryEdge{},
+	if may && w.mayLocks != nil {
+		return w.mayLocks
+	}
+	li := &LockInfo{may: may, w: w, entry: map[*ssa.Function]lockset{}, hasEdge: map[*ssa.Function]bool{}, edges: map[*ssa.Function][]entryEdge{},
 		blockIn: map[*ssa.BasicBlock]lockset{}, allLock: lockset{}, paramCalls: map[*ssa.Function]map[int][]ssa.Instruction{}, acq: map[*ssa.Function][]acqSite{}}
-	w.locks = li
+	if may {
+		w.mayLocks = li
+	} else {
+		w.locks = li
+	}
 	inMod := map[*ssa.Function]bool{}
 	for _, f := range w.modFuncs {
 		inMod[f] = true
@@ -391,7 +404,7 @@ func (w *World) lockInfo() *LockInfo {
 	}
 	// fixpoint
 	for _, f := range w.modFuncs {
-		if li.hasEdge[f] {
+		if li.hasEdge[f] && !li.may {
 			li.entry[f] = li.allLock.clone()
 		} else {
 			li.entry[f] = lockset{}
@@ -425,7 +438,7 @@ func (w *World) lockInfo() *LockInfo {
 				if acc == nil {
 					acc = ls.clone()
 				} else {
-					acc = meet(acc, ls)
+					acc = li.join(acc, ls)
 				}
 			}
 			if acc == nil {
@@ -543,6 +556,9 @@ func (li *LockInfo) solve(f *ssa.Function) {
 		return
 	}
 	top := li.allLock
+	if li.may {
+		top = lockset{}
+	}
 	in := map[*ssa.BasicBlock]lockset{}
 	out := map[*ssa.BasicBlock]lockset{}
 	for _, b := range f.Blocks {
@@ -563,7 +579,7 @@ func (li *LockInfo) solve(f *ssa.Function) {
 					if i == 0 {
 						cur = out[p].clone()
 					} else {
-						cur = meet(cur, out[p])
+						cur = li.join(cur, out[p])
 					}
 				}
 			}
@@ -647,9 +663,13 @@ func (w *World) accessesOf(f *types.Var) []fieldAccess {
 								out = append(out, fieldAccess{fn, u, f, loadedValueIsMutated(u), base})
 							}
 						case ssa.CallInstruction:
-							out = append(out, fieldAccess{fn, r, f, true, base})
-						case *ssa.FieldAddr, *ssa.IndexAddr:
-							// nested struct / array element: treat as access of the outer field
+							// the field's address is passed to a call: a write unless the callee is a module function that only reads through that parameter
+							out = append(out, fieldAccess{fn, r, f, addrArgMayBeWritten(w, u, x), base})
+						case *ssa.FieldAddr:
+							// nested struct field: the inner field is analysed on its own; for the outer field this is a read
+							out = append(out, fieldAccess{fn, r, f, false, base})
+						case *ssa.IndexAddr:
+							// array element
 							out = append(out, fieldAccess{fn, r, f, addrIsStoredThrough(r.(ssa.Value)), base})
 						default:
 							out = append(out, fieldAccess{fn, r, f, false, base})
@@ -758,6 +778,63 @@ func onlyReturned(r ssa.Instruction) bool {
 			}
 		}
 		return true
+	}
+	return false
+}
+
+func (li *LockInfo) join(a, b lockset) lockset {
+	if li.may {
+		return union(a, b)
+	}
+	return meet(a, b)
+}
+
+// addrArgMayBeWritten: addr is passed to call; false only when the callee is a module function with a body
+// that never stores through (or re-exports) the corresponding parameter.
+func addrArgMayBeWritten(w *World, call ssa.CallInstruction, addr ssa.Value) bool {
+	cc := call.Common()
+	sc := cc.StaticCallee()
+	if sc == nil || sc.Blocks == nil || !w.inModule(sc) {
+		return true
+	}
+	for i, a := range cc.Args {
+		if a != addr || i >= len(sc.Params) {
+			continue
+		}
+		if paramMayBeWritten(w, sc.Params[i], 0) {
+			return true
+		}
+	}
+	return false
+}
+
+func paramMayBeWritten(w *World, p ssa.Value, depth int) bool {
+	if depth > 4 || p.Referrers() == nil {
+		return depth > 4
+	}
+	for _, r := range *p.Referrers() {
+		switch x := r.(type) {
+		case *ssa.Store:
+			return true // stored through, or the pointer itself stored somewhere
+		case *ssa.FieldAddr:
+			if paramMayBeWritten(w, x, depth+1) {
+				return true
+			}
+		case *ssa.IndexAddr:
+			if paramMayBeWritten(w, x, depth+1) {
+				return true
+			}
+		case *ssa.UnOp, *ssa.DebugRef:
+		case ssa.CallInstruction:
+			if _, isLock := lockOpOf(x.Common()); isLock {
+				continue
+			}
+			if addrArgMayBeWritten(w, x, p) {
+				return true
+			}
+		case *ssa.MakeInterface, *ssa.MakeClosure, *ssa.Phi, *ssa.Return:
+			return true
+		}
 	}
 	return false
 }
